@@ -33,8 +33,12 @@ static OpType parseOp(const std::string& s) { return s == "add" ? OpType::Add : 
 static const char* MATS[] = {"1 0 0 1 0 1 0 0 0 0 1 0", "1 0 0 0 0 1 0 -1 0 0 1 0", "2 0 0 0 0 2 0 0 0 0 2 0", "0 -1 0 0 1 0 0 0 0 0 1 0", "-1 0 0 0 0 1 0 0 0 0 1 0", "1 0 0 0 0 1 0 0 0 0 1 1", "1 0 0 0 0 1 0 0 0 0 1 0"};
 
 struct Item { std::string text; int force = -1; };
-static std::vector<Item> genProg(Rng& r, int nleaf, int ncmd) {
+static std::vector<Item> genProg(Rng& r, int nleaf, int ncmd, bool temporaries = false) {
   std::vector<Item> items; std::vector<int> live;
+  // in `temporaries` mode the non-leaf operands of an operation are dropped right after it,
+  // as the temporaries of a C++ expression are: this is what makes op nodes uniquely held
+  // and lets nested collapses (with their transforms) happen
+  auto dropTemps = [&](std::initializer_list<int> hs) { if (!temporaries) return; for (int h : hs) if (h > nleaf && r.below(10) < 8) { auto it = std::find(live.begin(), live.end(), h); if (it != live.end() && live.size() > 2) { live.erase(it); items.push_back({"drop " + std::to_string(h)}); } } };
   for (int h = 1; h <= nleaf; h++) { items.push_back({"leaf " + std::to_string(h)}); live.push_back(h); }
   int nxt = nleaf + 1;
   auto pick = [&] { return live[r.below(live.size())]; };
@@ -44,15 +48,35 @@ static std::vector<Item> genProg(Rng& r, int nleaf, int ncmd) {
       if (r.below(10) < 3) { std::vector<int> c; for (int v : live) if (v > nleaf) c.push_back(v); if (!c.empty()) h = c[r.below(c.size())]; }
       if (h == nxt) nxt++;
       items.push_back({"bool " + std::to_string(h) + " " + ops[r.below(5)] + " " + std::to_string(a) + " " + std::to_string(b)});
-      if (std::find(live.begin(), live.end(), h) == live.end()) live.push_back(h); }
+      if (std::find(live.begin(), live.end(), h) == live.end()) live.push_back(h); if (a != h && b != h) dropTemps({a, b}); }
     else if (x < 50) { static const int ks[] = {0, 1, 2, 3, 3, 4}; int kk = ks[r.below(6)]; const char* ops[] = {"add", "sub", "int"}; std::string t = "batch " + std::to_string(nxt) + " " + ops[r.below(3)];
       for (int i = 0; i < kk; i++) t += " " + std::to_string(pick()); items.push_back({t}); live.push_back(nxt++); }
-    else if (x < 70) { int a = pick(); items.push_back({"xf " + std::to_string(nxt) + " " + std::to_string(a) + " " + MATS[r.below(7)]}); live.push_back(nxt++); }
+    else if (x < 70) { int a = pick(); items.push_back({"xf " + std::to_string(nxt) + " " + std::to_string(a) + " " + MATS[r.below(7)]}); live.push_back(nxt++); dropTemps({a}); }
     else if (x < 80) { std::vector<int> c; for (int v : live) if (v > nleaf) c.push_back(v); if (!c.empty() && live.size() > 2) { int h = c[r.below(c.size())]; live.erase(std::find(live.begin(), live.end(), h)); items.push_back({"drop " + std::to_string(h)}); } }
-    else if (r.below(10) < 8) { Item it; it.force = pick(); items.push_back(it); }
+    else if (r.below(10) < (temporaries ? 2 : 8)) { Item it; it.force = pick(); items.push_back(it); }
   }
   Item it; it.force = pick(); items.push_back(it);
   return items;
+}
+
+// nested same-op chains with a transform at every level and all intermediates dropped: the
+// shape in which collapsed frames inherit and compose transforms over several levels
+static std::vector<Item> genChain(Rng& r, int nleaf, int depth) {
+  std::vector<Item> items; for (int h = 1; h <= nleaf; h++) items.push_back({"leaf " + std::to_string(h)});
+  int nxt = nleaf + 1; auto leaf = [&] { return 1 + (int)r.below(nleaf); };
+  const char* ops[] = {"add", "int", "sub"}; std::string op = ops[r.below(3)];
+  int cur = nxt++; items.push_back({"bool " + std::to_string(cur) + " " + op + " " + std::to_string(leaf()) + " " + std::to_string(leaf())});
+  for (int d = 0; d < depth; d++) {
+    if (r.below(10) < 8) { int x = nxt++; items.push_back({"xf " + std::to_string(x) + " " + std::to_string(cur) + " " + MATS[r.below(7)]}); if (r.below(10) < 9) items.push_back({"drop " + std::to_string(cur)}); cur = x; }
+    if (r.below(12) == 0) { Item f; f.force = cur; items.push_back(f); }
+    std::string o = r.below(10) < 8 ? op : ops[r.below(3)];
+    int b = nxt++; bool first = o == "sub" || r.below(2);
+    if (r.below(4) == 0) {  // batch form
+      std::string t = "batch " + std::to_string(b) + " " + o + " " + (first ? std::to_string(cur) + " " + std::to_string(leaf()) : std::to_string(leaf()) + " " + std::to_string(cur)) + " " + std::to_string(leaf()); items.push_back({t}); }
+    else items.push_back({"bool " + std::to_string(b) + " " + o + " " + (first ? std::to_string(cur) + " " + std::to_string(leaf()) : std::to_string(leaf()) + " " + std::to_string(cur))});
+    if (r.below(10) < 9) items.push_back({"drop " + std::to_string(cur)}); cur = b;
+  }
+  Item f; f.force = cur; items.push_back(f); return items;
 }
 
 static void runTie(const std::string& tag, const std::vector<Item>& items) {
@@ -96,6 +120,16 @@ static Manifold build(const std::vector<LNode>& ns, std::vector<Manifold>& made,
   if (eager) (void)m.Status();
   return m;
 }
+// the same expression built as a C++ expression tree: intermediates are temporaries (uniquely
+// held op nodes => collapses, incl. nested transformed ones); evaluated only at the root
+static Manifold buildTree(const std::vector<LNode>& ns, int i) {
+  const LNode& n = ns[i];
+  if (n.kind == 0) return Manifold::Cube(vec3(n.box[3] - n.box[0], n.box[4] - n.box[1], n.box[5] - n.box[2])).Translate(vec3(n.box[0], n.box[1], n.box[2]));
+  if (n.kind == 1) return buildTree(ns, n.a).Boolean(buildTree(ns, n.b), (OpType)n.op);
+  Manifold m = buildTree(ns, n.a).Translate(vec3(n.t[0], n.t[1], n.t[2]));
+  if (n.flip >= 0) { vec3 s(1.0); s[n.flip] = -1; return m.Scale(s).Translate(vec3(n.flip == 0 ? 4 : 0, n.flip == 1 ? 4 : 0, n.flip == 2 ? 4 : 0)); }
+  return m;
+}
 static std::string classify(const Manifold& m) {
   std::vector<vec3> pts; for (int x = -2; x < 7; x++) for (int y = -2; y < 7; y++) for (int z = -2; z < 7; z++) pts.push_back(vec3(x + 0.5, y + 0.5, z + 0.5));
   auto w = m.WindingNumber(pts); std::string s; for (int v : w) s += (v != 0 ? '1' : '0'); return s;
@@ -103,13 +137,18 @@ static std::string classify(const Manifold& m) {
 static void runSem(const std::string& tag, Rng& r) {
   std::vector<LNode> ns; int nleaf = 2 + (int)r.below(4);
   for (int i = 0; i < nleaf; i++) { LNode n; n.kind = 0; for (int k = 0; k < 3; k++) { int lo = (int)r.below(3), hi = lo + 1 + (int)r.below(3); n.box[k] = lo; n.box[k + 3] = hi; } ns.push_back(n); }
-  int nops = 2 + (int)r.below(8);
-  for (int i = 0; i < nops; i++) { LNode n; if (r.below(3) == 0) { n.kind = 2; n.a = (int)r.below(ns.size()); for (int k = 0; k < 3; k++) n.t[k] = (int)r.below(3) - 1; n.flip = r.below(3) == 0 ? (int)r.below(3) : -1; }
-    else { n.kind = 1; n.a = (int)r.below(ns.size()); n.b = (int)r.below(ns.size()); n.op = (int)r.below(3); } ns.push_back(n); }
+  int nops = 2 + (int)r.below(8); const bool chain = r.below(2); const int chainOp = (int)r.below(3);
+  for (int i = 0; i < nops; i++) { LNode n;
+    if (chain) {  // alternate transform / same-op Boolean on the most recent node
+      if (i % 2 == 0) { n.kind = 2; n.a = (int)ns.size() - 1; for (int k = 0; k < 3; k++) n.t[k] = (int)r.below(3) - 1; n.flip = r.below(3) ? (int)r.below(3) : -1; }
+      else { n.kind = 1; n.a = (int)ns.size() - 1; n.b = (int)r.below(nleaf); n.op = r.below(8) ? chainOp : (int)r.below(3); if (n.op != 1 && r.below(2)) std::swap(n.a, n.b); }
+      ns.push_back(n); continue; } if (r.below(5) < 2) { n.kind = 2; n.a = r.below(2) ? (int)ns.size() - 1 : (int)r.below(ns.size()); for (int k = 0; k < 3; k++) n.t[k] = (int)r.below(3) - 1; n.flip = r.below(2) == 0 ? (int)r.below(3) : -1; }
+    else { n.kind = 1; n.a = r.below(2) ? (int)ns.size() - 1 : (int)r.below(ns.size()); n.b = (int)r.below(ns.size()); n.op = (int)r.below(3); } ns.push_back(n); }
   std::string ref; double refVol = 0; int refStatus = 0; bool ok = true; std::string msg;
-  for (int hist = 0; hist < 4 && ok; hist++) {
+  for (int hist = 0; hist < 5 && ok; hist++) {
     std::vector<Manifold> made;
-    for (size_t i = 0; i < ns.size(); i++) {
+    if (hist == 4) { made.push_back(buildTree(ns, (int)ns.size() - 1)); }
+    else for (size_t i = 0; i < ns.size(); i++) {
       made.push_back(build(ns, made, (int)i, hist == 1));
       if (hist == 2 && r.below(3) == 0) (void)made[r.below(made.size())].NumTri();       // random forcing history
       if (hist == 3 && ns[i].kind == 2) (void)made[ns[i].a].Status();                      // shared sub-expression first
@@ -132,7 +171,10 @@ int main(int argc, char** argv) {
   verif::hooks().onCsgFinalize = [](int op, const std::vector<std::shared_ptr<CsgLeafNode>>& pos, const std::vector<std::shared_ptr<CsgLeafNode>>& neg) {
     gCur = std::string("fin ") + (op == 0 ? "add" : op == 1 ? "sub" : "int") + " pos"; for (auto& l : pos) gCur += " " + nameOf(l, false); gCur += " neg"; for (auto& l : neg) gCur += " " + nameOf(l, false); };
   verif::hooks().onCsgFinalized = [](const std::shared_ptr<CsgLeafNode>& res) { gEvents.push_back(gCur + " => " + nameOf(res, true)); };
-  for (int i = 0; i < N; i++) runTie("t" + std::to_string(i) + " evaluator", genProg(r, 2 + (int)r.below(5), 3 + (int)r.below(i % 10 == 0 ? 60 : 22)));
+  for (int i = 0; i < N; i++) {
+    if (i % 3 == 2) runTie("t" + std::to_string(i) + " evaluator-chain", genChain(r, 2 + (int)r.below(4), 1 + (int)r.below(6)));
+    else runTie("t" + std::to_string(i) + (i % 3 ? " evaluator-temps" : " evaluator"), genProg(r, 2 + (int)r.below(5), 3 + (int)r.below(i % 10 == 0 ? 60 : 22), i % 3 == 1));
+  }
   verif::hooks().onCsgVisit = nullptr; verif::hooks().onCsgFinalize = nullptr; verif::hooks().onCsgFinalized = nullptr;
   for (int i = 0; i < M; i++) runSem("s" + std::to_string(i) + " histories", r);
   return 0;
